@@ -19,7 +19,7 @@ from concurrent.futures import ThreadPoolExecutor
 
 import vlib
 
-CHUNK_LINES = 20000
+CHUNK_LINES = 60000
 
 
 def model_check(c):
@@ -87,7 +87,10 @@ def split_runs(path, chunk_lines):
 
 def validate(c, module, path, workers):
     """Pattern T over all runs of one component; returns (lines, inconsistent[], nonconf_count)."""
-    pieces = split_runs(path, CHUNK_LINES)
+    with open(path) as f:
+        nlines = sum(1 for _ in f)
+    # one wave of `workers` TLC runs when the trace is small, pieces of CHUNK_LINES lines otherwise
+    pieces = split_runs(path, min(CHUNK_LINES, nlines // workers + 1))
     bad, nonconf, total = [], [0], [0]
 
     def work(idx, piece):
@@ -154,7 +157,7 @@ def run(c):
         with open(path) as f:
             lines = [l for l in f if l.strip()]
         enumerated[comp] = dict(cfg=cfg, histories=len(lines))
-        limit = c.pick(dict(pool=600, flagged=800), dict(pool=9000, flagged=8000))[comp]
+        limit = c.pick(dict(pool=500, flagged=700), dict(pool=5000, flagged=5000))[comp]
         if len(lines) > limit:
             lines = rnd.sample(lines, limit)
             enumerated[comp]["sampled"] = limit
